@@ -80,4 +80,153 @@ example : (validateRegistrationPE Cfg.fixed reDemo regId demoPD [regCred, regDec
 example : (validateRegistrationPE Cfg.fixed reDemo regId demoPD [regDecoy]).cls = "err:match" := by decide
 example : (validateRegistrationPE Cfg.fixed reDemo regId demoPD [demoCred]).cls = "err:no-id" := by decide
 
+
+/-! ### the client side: discovery/client.go findCredentialsAndBuildPresentation + the DID loop of `activate` -/
+
+/-- the wallet the client matches: its stored credentials, then the self-attested registration credential (if any) -/
+def clientCredentials (wallet : List Cred) (regCred : Option Cred) : List Cred :=
+  match regCred with | some c => wallet ++ [c] | none => wallet
+
+/-- what a node REGISTERS is sound: every credential put into the registration presentation stands (vcEqual) for a
+    credential of the node's own wallet (or the registration credential) that SATISFIES an input descriptor of the
+    service's definition — for all definitions and wallets; never a decoy -/
+theorem client_registration_sound (re : Regex) (pd : PD) (wallet : List Cred) (regCred : Option Cred) (vcs : List Cred)
+    (h : clientRegistrationCreds Facts.C12.cfg re pd wallet regCred = .ok vcs) :
+    ∀ u ∈ vcs, ∃ d v, d ∈ pd.descs ∧ v ∈ clientCredentials wallet regCred ∧ Satisfies re pd d v ∧ v.key = u.key := by
+  intro u hu
+  unfold clientRegistrationCreds at h
+  simp only at h
+  split at h
+  · cases h
+  · cases h
+  · next ms matching hm =>
+    injection h with h; subst h
+    obtain ⟨hal, _⟩ := match_sound re pd _ ms matching hm
+    obtain ⟨j, m, _, d, v, hd, hv, hs, hk, _⟩ := alignedBy_mem ms matching 0 hal u hu
+    exact ⟨d, v, hd, hv, hs, hk⟩
+
+/-- the client never panics, and it registers exactly when `Match` succeeds (the error is Match's own) -/
+theorem client_registration_total (re : Regex) (pd : PD) (wallet : List Cred) (regCred : Option Cred) (site : String) :
+    clientRegistrationCreds Facts.C12.cfg re pd wallet regCred ≠ .panic site := by
+  unfold clientRegistrationCreds
+  simp only
+  split
+  · intro h; cases h
+  · next s hm => exact absurd hm (pe_total_match re pd _ s)
+  · intro h; cases h
+
+/-- client → server, end to end: when the server's `validateRegistration` accepts what a client built, every credential
+    of that registration has an id and satisfies (as a credential of the PRESENTATION) an input descriptor — and it also
+    came from the client's wallet satisfying a descriptor there (both halves, composed) -/
+theorem client_registration_accepted_end_to_end (re : Regex) (idOf : Cred → Option String) (pd : PD) (wallet : List Cred)
+    (regCred : Option Cred) (vcs : List Cred)
+    (hc : clientRegistrationCreds Facts.C12.cfg re pd wallet regCred = .ok vcs)
+    (hs : validateRegistrationPE Facts.C12.cfg re idOf pd vcs = .ok ()) :
+    ∀ c ∈ vcs, (∃ d v, d ∈ pd.descs ∧ v ∈ clientCredentials wallet regCred ∧ Satisfies re pd d v ∧ v.key = c.key) ∧
+      (∃ u d v id, idOf c = some id ∧ idOf u = some id ∧ u.raw = c.raw ∧ d ∈ pd.descs ∧ v ∈ vcs ∧ Satisfies re pd d v ∧ v.key = u.key) :=
+  fun c hcm => ⟨client_registration_sound re pd wallet regCred vcs hc c hcm, registration_rejects_surplus re idOf pd vcs hs c hcm⟩
+
+theorem activateLoop_reg_pos : ∀ (results : List RegResult), 0 < (activateLoop results).1 ↔ RegResult.registered ∈ results
+  | [] => by simp [activateLoop]
+  | r :: rest => by
+    have ih := activateLoop_reg_pos rest
+    unfold activateLoop
+    cases r <;> simp [ih]
+
+theorem activateLoop_errs_zero : ∀ (results : List RegResult), (activateLoop results).2 = 0 ↔ RegResult.failed ∉ results
+  | [] => by simp [activateLoop]
+  | r :: rest => by
+    have ih := activateLoop_errs_zero rest
+    unfold activateLoop
+    cases r <;> simp [ih]
+
+/-- `activate` succeeds exactly when at least one of the subject's DIDs was registered — for ALL outcome sequences -/
+theorem activate_ok_iff_some_did_registered (results : List RegResult) :
+    activateVerdict results = "ok" ↔ RegResult.registered ∈ results := by
+  have hp := activateLoop_reg_pos results
+  unfold activateVerdict
+  cases results with
+  | nil => simp
+  | cons r rest =>
+    simp only [List.length_cons]
+    have : ((rest.length + 1 == 0) = false) := by simp
+    rw [this]; simp only [Bool.false_eq_true, if_false]
+    generalize hl : activateLoop (r :: rest) = p at hp
+    obtain ⟨reg, errs⟩ := p
+    simp only at hp ⊢
+    by_cases h0 : reg = 0
+    · subst h0
+      have hn : RegResult.registered ∉ r :: rest := fun hm => by have := hp.2 hm; omega
+      simp only [BEq.rfl, if_true]
+      constructor
+      · intro h; split at h <;> simp at h
+      · intro h; exact absurd h hn
+    · have : (reg == 0) = false := by simpa using h0
+      simp only [this, Bool.false_eq_true, if_false, true_iff]
+      exact hp.1 (by omega)
+
+/-- "missing credentials" is reported for the subject only when EVERY DID merely lacked credentials (no other error is
+    swallowed into it, and no registered DID is forgotten) -/
+theorem activate_nocred_iff_all_dids_lack_credentials (results : List RegResult) :
+    activateVerdict results = "err:failed:nocred" ↔ results ≠ [] ∧ ∀ r ∈ results, r = RegResult.noCredentials := by
+  have hp := activateLoop_reg_pos results
+  have he := activateLoop_errs_zero results
+  unfold activateVerdict
+  cases results with
+  | nil => simp
+  | cons r rest =>
+    simp only [List.length_cons]
+    have : ((rest.length + 1 == 0) = false) := by simp
+    rw [this]; simp only [Bool.false_eq_true, if_false]
+    generalize hl : activateLoop (r :: rest) = p at hp he
+    obtain ⟨reg, errs⟩ := p
+    simp only at hp he ⊢
+    have hall : (RegResult.registered ∉ r :: rest ∧ RegResult.failed ∉ r :: rest) ↔ ∀ x ∈ r :: rest, x = RegResult.noCredentials := by
+      constructor
+      · intro ⟨h1, h2⟩ x hx
+        cases x
+        · exact absurd hx h1
+        · rfl
+        · exact absurd hx h2
+      · intro h
+        exact ⟨fun hm => (nomatch h _ hm), fun hm => (nomatch h _ hm)⟩
+    by_cases h0 : reg = 0
+    · subst h0
+      have hn : RegResult.registered ∉ r :: rest := fun hm => by have := hp.2 hm; omega
+      simp only [BEq.rfl, if_true]
+      have hne : ((0 : Nat) != rest.length + 1) = true := by simp
+      simp only [hne, Bool.true_and]
+      by_cases e0 : errs = 0
+      · subst e0
+        simp only [BEq.rfl, if_true, true_iff]
+        exact ⟨by simp, hall.1 ⟨hn, he.1 rfl⟩⟩
+      · have : (errs == 0) = false := by simpa using e0
+        simp only [this, Bool.false_eq_true, if_false]
+        constructor
+        · intro h; simp at h
+        · intro ⟨_, h⟩
+          exact absurd (he.2 (hall.2 h).2) e0
+    · have : (reg == 0) = false := by simpa using h0
+      simp only [this, Bool.false_eq_true, if_false]
+      constructor
+      · intro h; simp at h
+      · intro ⟨_, h⟩
+        exact absurd (hp.1 (by omega)) (hall.2 h).1
+
+/-- the source of the client's PE part and of `activate`'s DID loop (regenerated): Match's second result is discarded,
+    exactly `matchingCredentials` reaches `buildPresentation`; only `pe.ErrNoCredentials` is ignored in the loop and the
+    subject fails iff no DID registered -/
+theorem fact_client_registration_source :
+    Facts.C12.clientRegistrationShape.drop 4 = ["matchingCredentials, _, err := service.PresentationDefinition.Match(credentials)", "const errStr = \"...\"", "if err != nil { return nil, fmt.Errorf(errStr, service.ID, subjectDID, err) }", "return r.buildPresentation(ctx, subjectDID, service, matchingCredentials, nil, nil)"] ∧
+    (Facts.C12.clientRegistrationShape.drop 3).take 1 = ["if len(parameters) > 0 { registrationCredential = vc.VerifiableCredential{ Context: []ssi.URI{vc.VCContextV1URI(), credential.NutsV1ContextURI}, Type: []ssi.URI{vc.VerifiableCredentialTypeV1URI(), credential.DiscoveryRegistrationCredentialTypeV1URI()}, CredentialSubject: []interface{}{parameters}, } credentials = append(credentials, credential.AutoCorrectSelfAttestedCredential(registrationCredential, subjectDID)) }"] ∧
+    (Facts.C12.clientActivateShape.drop 8).take 4 = ["var registeredDIDs []string", "var loopErrs []error", "for _, subjectDID := range subjectDIDs { err := r.registerPresentation(ctx, subjectDID, service, parameters) if err != nil { if !errors.Is(err, pe.ErrNoCredentials) { loopErrs = append(loopErrs, fmt.Errorf(\"...\", subjectDID.String(), err)) } else { log.Logger().Tracef(\"...\", service.ID, subjectID, subjectDID, err.Error()) } } else { registeredDIDs = append(registeredDIDs, subjectDID.String()) } }", "if len(registeredDIDs) == 0 { if len(registeredDIDs) != len(subjectDIDs) && len(loopErrs) == 0 { loopErrs = append(loopErrs, fmt.Errorf(\"...\", serviceID, subjectID, pe.ErrNoCredentials)) } return fmt.Errorf(\"...\", ErrPresentationRegistrationFailed, errors.Join(loopErrs...)) }"] ∧
+    (Facts.C12.clientActivateShape.drop 6).take 1 = ["if len(subjectDIDs) == 0 { return fmt.Errorf(\"...\", ErrPresentationRegistrationFailed, ErrNoSupportedDIDMethods, subjectID) }"] := ⟨rfl, rfl, rfl, rfl⟩
+
+example : clientRegistrationCreds Cfg.fixed reDemo demoPD [regDecoy, regCred] none = .ok [regCred] := by rfl
+example : (clientRegistrationCreds Cfg.fixed reDemo demoPD [regDecoy] none).cls = "err:nocred" := by decide
+example : activateVerdict [.noCredentials, .registered, .failed] = "ok" := by decide
+example : activateVerdict [.noCredentials, .noCredentials] = "err:failed:nocred" := by decide
+example : activateVerdict [.noCredentials, .failed] = "err:failed" := by decide
+example : activateVerdict [] = "err:no-dids" := by decide
+
 end Nuts.C12.Props
